@@ -46,12 +46,13 @@ type hStray struct {
 }
 
 type hHistory struct {
-	Ctx     int        `json:"ctx"`
-	Bridges []vBridge  `json:"bridges"`
-	Proxies []*hProxy  `json:"proxies"`
-	Clients []*hClient `json:"clients"`
-	Strays  []*hStray  `json:"stray_answers"`
-	Open    int        `json:"operations_still_open"`
+	Ctx      int        `json:"ctx"`
+	Bridges  []vBridge  `json:"bridges"`
+	Proxies  []*hProxy  `json:"proxies"`
+	Clients  []*hClient `json:"clients"`
+	Strays   []*hStray  `json:"stray_answers"`
+	Open     int        `json:"operations_still_open"`
+	LongSids int        `json:"common_sid_prefix_bytes,omitempty"`
 }
 
 var natChoices = []string{"", NATUnknown, NATRestricted, NATUnrestricted, NATUnrestricted, NATRestricted}
@@ -126,6 +127,15 @@ func genHistory(r *vlib.Rand, ctxID int) *hHistory {
 		c.Spec.Offer = fmt.Sprintf(`{"type":"offer","sdp":"OFFER-c%d-j%d-%x"}`, ctxID, j, r.Uint64())
 		c.StartMs = r.Intn(700)
 		h.Clients = append(h.Clients, c)
+	}
+	// session ids are the proxies' choice: in a third of the histories they are long
+	// and pairwise distinct only in their last characters
+	if lr := r.Split("long-sids"); lr.Chance(1, 3) {
+		prefix := strings.Repeat(lr.PickString([]string{"S", "ab", "0123456789", "\u00e9"}), lr.Range(40, 200))
+		for _, p := range h.Proxies {
+			p.Spec.Sid = prefix + p.Spec.Sid
+		}
+		h.LongSids = len(prefix)
 	}
 	ns := r.Intn(3)
 	for k := 0; k < ns; k++ {
@@ -647,6 +657,9 @@ func runC02C03(t *testing.T, prop string) {
 			res.Obs("histories_with_overlapping_matches", 1)
 		}
 		res.Obs("histories", 1)
+		if o.h.LongSids > 0 {
+			res.Obs("histories_with_long_session_ids_sharing_a_prefix", 1)
+		}
 		for _, c := range o.h.Clients {
 			res.Obs("client_polls_"+c.Spec.Transport, 1)
 		}
@@ -686,4 +699,5 @@ func runC02C03(t *testing.T, prop string) {
 		res.RequireObs("late_answers_posted", 1)
 	}
 	res.RequireObs("histories_with_overlapping_matches", int64(len(hs)*4/10))
+	res.RequireObs("histories_with_long_session_ids_sharing_a_prefix", int64(len(hs)/8))
 }
